@@ -192,6 +192,12 @@ def to_term(e, nm=None):
         return to_term(e[1], nm) == er.Value(False)
     if t == "m":
         recv = to_term(e[2], nm)
+        if e[1] == "mapv":
+            args = [er.DictTerm({k: v for k, v in e[3][0][1]})] + [er.Value(a[1]) for a in e[3][1:]]
+            return recv.mapv(*args)
+        if e[1] in ("if_else", "where", "coalesce", "concat", "maximum", "minimum", "fmax", "fmin"):
+            args = [to_term(a, nm) for a in e[3]]
+            return getattr(recv, e[1])(*args)
         args = [py_arg(a, nm) for a in e[3]]
         return getattr(recv, e[1])(*args)
     if t == "f":
@@ -200,14 +206,18 @@ def to_term(e, nm=None):
 
 
 def py_arg(a, nm):
-    if a[0] == "list":
-        return list(a[1])
-    if a[0] == "set":
-        return set(a[1])
+    if a[0] in ("list", "set"):
+        # Term objects carry collections as lists of Value objects (what the parser builds; a list of raw Python
+        # values is refused by the builder: ListTerm.get_column_names)
+        import data_algebra.expr_rep as er
+
+        return [er.Value(v) for v in a[1]]
     if a[0] == "dict":
         return {k: v for k, v in a[1]}
     if a[0] == "lit":
-        return a[1]
+        import data_algebra.expr_rep as er
+
+        return er.Value(a[1])
     if a[0] == "raw":
         return eval(a[1])
     return to_term(a, nm)
